@@ -43,7 +43,13 @@ pub enum Step {
         /// the proof comes from the previous (still retained) set instead of the latest one
         #[serde(default)]
         by_previous_set: bool,
+        /// who signs (when `operator_auth`): 0 every authorisation is granted (as before), 1 exactly the current operator
+        /// signs this call, 2 exactly the former operator does (a stranger if the role never moved)
+        #[serde(default)]
+        signer: u8,
     },
+    /// the operator hands the role to a fresh address: from then on only that address can bypass the delay
+    TransferOperatorship,
     /// the owner upgrades the gateway and completes the migration: delay setting and rotation clock are carried over
     UpgradeAndMigrate,
 }
@@ -72,9 +78,11 @@ fn step() -> impl Strategy<Value = Step> {
             prop_oneof![3 => Just(false), 1 => Just(true)],
             prop_oneof![3 => Just(true), 1 => Just(false)],
             prop_oneof![6 => Just(CandKind::Valid), 1 => Just(CandKind::InvalidThresholdZero), 1 => Just(CandKind::DuplicateOfLatest)],
-            prop_oneof![5 => Just(false), 1 => Just(true)]
+            prop_oneof![5 => Just(false), 1 => Just(true)],
+            prop_oneof![2 => Just(0u8), 2 => Just(1u8), 1 => Just(2u8)]
         )
-            .prop_map(|(bypass, operator_auth, cand, by_previous_set)| Step::Rotate { bypass, operator_auth, cand, by_previous_set }),
+            .prop_map(|(bypass, operator_auth, cand, by_previous_set, signer)| Step::Rotate { bypass, operator_auth, cand, by_previous_set, signer }),
+        1 => Just(Step::TransferOperatorship),
     ]
 }
 
@@ -94,13 +102,13 @@ impl Property for C09 {
         (0u8..21, 0u8..3, proptest::collection::vec(step(), 1..=n)).prop_map(|(delay, deploy_ts, steps)| Case { delay, deploy_ts, steps }).boxed()
     }
     fn fixed_cases(&self, _tier: Tier) -> Vec<Case> {
-        let r = |bypass| Step::Rotate { bypass, operator_auth: true, cand: CandKind::Valid, by_previous_set: false };
+        let r = |bypass| Step::Rotate { bypass, operator_auth: true, cand: CandKind::Valid, by_previous_set: false, signer: 0 };
         vec![
             Case { delay: 2, deploy_ts: 2, steps: vec![Step::Advance(Dt::ToBoundary(-1)), r(false), Step::Advance(Dt::ToBoundary(0)), r(false), r(false), Step::Advance(Dt::ToBoundary(1)), r(false)] },
             Case { delay: 7 + 3, deploy_ts: 2, steps: vec![Step::Advance(Dt::Small(1)), r(false), Step::Advance(Dt::ToBoundary(0)), r(false), r(false)] },
             Case { delay: 14 + 2, deploy_ts: 1, steps: vec![r(false), Step::Advance(Dt::ToBoundary(-1)), r(false), Step::Advance(Dt::ToBoundary(0)), r(false)] },
             Case { delay: 3, deploy_ts: 1, steps: vec![r(true), Step::Advance(Dt::ToBoundary(-1)), r(false), Step::Advance(Dt::Small(1)), r(false)] },
-            Case { delay: 3, deploy_ts: 0, steps: vec![Step::Advance(Dt::Delay(0)), Step::Rotate { bypass: false, operator_auth: true, cand: CandKind::DuplicateOfLatest, by_previous_set: false }, r(false), r(false)] },
+            Case { delay: 3, deploy_ts: 0, steps: vec![Step::Advance(Dt::Delay(0)), Step::Rotate { bypass: false, operator_auth: true, cand: CandKind::DuplicateOfLatest, by_previous_set: false, signer: 0 }, r(false), r(false)] },
         ]
     }
 
@@ -123,6 +131,12 @@ impl Property for C09 {
         let mut nontrivial = false;
         let mut bypass_succeeded = false;
         let mut seq_advanced: u32 = 0;
+        let mut operator_now = gw.operator.clone();
+        let mut former_operator: Option<soroban_sdk::Address> = None;
+        let stranger = {
+            use soroban_sdk::testutils::Address as _;
+            soroban_sdk::Address::generate(&env)
+        };
         cx.label(&format!("delay_{}", d));
 
         for (k, st) in case.steps.iter().enumerate() {
@@ -162,7 +176,17 @@ impl Property for C09 {
                     now = new_now;
                     env.ledger().set_timestamp(now);
                 }
-                Step::Rotate { bypass, operator_auth, cand, by_previous_set } => {
+                Step::TransferOperatorship => {
+                    use soroban_sdk::testutils::Address as _;
+                    let next = soroban_sdk::Address::generate(&env);
+                    env.mock_all_auths();
+                    gw.client.transfer_operatorship(&next);
+                    former_operator = Some(operator_now.clone());
+                    operator_now = next;
+                    cx.label("operatorship_transferred_in_history");
+                    nontrivial = true;
+                }
+                Step::Rotate { bypass, operator_auth, cand, by_previous_set, signer } => {
                     let candidate = match cand {
                         CandKind::Valid => g(n_sets).build(n_sets as u8),
                         CandKind::InvalidThresholdZero => {
@@ -182,7 +206,17 @@ impl Property for C09 {
                         cx.label("proof_from_previous_set");
                     }
                     // (with retention 0 the previous set is no longer honoured at all)
-                    let expect_ok = cand_ok && if *bypass { *operator_auth && (!use_prev || retention >= 1) } else { delay_ok && !use_prev };
+                    // exact signer (account contracts are set up before the snapshot)
+                    let exact: Option<soroban_sdk::Address> = match (*operator_auth, signer % 3) {
+                        (true, 1) => Some(operator_now.clone()),
+                        (true, 2) => Some(former_operator.clone().unwrap_or_else(|| stranger.clone())),
+                        _ => None,
+                    };
+                    let signed_by_operator = *operator_auth && exact.as_ref().map(|a| *a == operator_now).unwrap_or(true);
+                    if *bypass && exact.is_some() && former_operator.is_some() {
+                        cx.label(if signed_by_operator { "bypass_signed_by_the_new_operator" } else { "bypass_signed_by_the_former_operator" });
+                    }
+                    let expect_ok = cand_ok && if *bypass { signed_by_operator && (!use_prev || retention >= 1) } else { delay_ok && !use_prev };
                     if !*bypass && d > 0 {
                         let near = (elapsed as i128 - d as i128).abs() <= 1;
                         if near {
@@ -195,9 +229,19 @@ impl Property for C09 {
                         cx.label("non_bypass_after_bypass");
                     }
                     let proof = prover.proof(&env, &digest(&gw.domain, &prover.hash(), &candidate.rotation_data_hash()), prover.full_mask());
-                    let client = if *operator_auth { gw.client.mock_all_auths() } else { gw.client.mock_auths(&[]) };
+                    let cand_s = candidate.to_soroban(&env);
+                    match &exact {
+                        Some(who) => {
+                            use soroban_sdk::IntoVal;
+                            let inv = soroban_sdk::testutils::MockAuthInvoke { contract: &gw.id, fn_name: "rotate_signers", args: (cand_s.clone(), proof.clone(), *bypass).into_val(&env), sub_invokes: &[] };
+                            env.mock_auths(&[soroban_sdk::testutils::MockAuth { address: who, invoke: &inv }]);
+                        }
+                        None if *operator_auth => env.mock_all_auths(),
+                        None => env.mock_auths(&[]),
+                    }
+                    let client = &gw.client;
                     let snap0 = snapshot(&env);
-                    let r = client.try_rotate_signers(&candidate.to_soroban(&env), &proof, bypass);
+                    let r = client.try_rotate_signers(&cand_s, &proof, bypass);
                     let ok = matches!(r, Ok(Ok(())));
                     if expect_ok {
                         cx.count("must_succeed");
